@@ -3,6 +3,8 @@ module verifharness
 go 1.16
 
 require (
+	github.com/tjfoc/gmsm v1.4.1
+	golang.org/x/crypto v0.0.0-20210921155107-089bfa567519
 	google.golang.org/protobuf v1.26.0
 	qchen.fun/fatchoy v0.0.0
 )
